@@ -224,3 +224,36 @@ def freq_td_(f):
         return pd.Timedelta(1, f)
     except Exception:
         return pd.Timedelta(f)
+
+
+def uspec_term(a, spec, G='G'):
+    """C02: the asset as a `uspec` of RefCorr.v (model problem + textbook object), or None when the instance theorems of
+    Reference.v do not cover it (coarse / periodic grid, takes, binary options, other classes)"""
+    g = spec['grid']
+    k = a['kind']
+    if a.get('freq') and a['freq'] != g['freq'] or a.get('periodicity'):
+        return None
+    tz = g.get('tz')
+    s = inst(a['start'], tz) if a.get('start') else inst(g['start'], tz)
+    e = inst(a['end'], tz) if a.get('end') else inst(g['end'], tz)
+    rg = '(restrict %s %s %s %s)' % (G, C.qvec(discount(g, a.get('wacc', 0) or 0)), C.z(s), C.z(e))
+    if k == 'SimpleContract':
+        cp = '(Build_contract_p %s %s %s %s %s %s)' % (
+            C.s(a['name']), C.s(a['nodes'][0]), price_term(a.get('price'), spec),
+            param_term(a.get('min_cap', 0.0), spec, g), param_term(a.get('max_cap', 0.0), spec, g),
+            param_term(a.get('extra_costs', 0.0), spec, g))
+        return '(USimple %s %s)' % (rg, cp)
+    if k == 'Transport':
+        tp = '(Build_transport_p %s %s %s %s %s %s %s %s)' % (
+            C.s(a['name']), C.s(a['nodes'][0]), C.s(a['nodes'][1]), price_term(a.get('costs_time_series'), spec),
+            C.q(float(a.get('costs_const', 0.0))), C.q(float(a.get('min_cap', 0.0))), C.q(float(a.get('max_cap', 0.0))),
+            C.q(float(a.get('efficiency', 1.0))))
+        return '(UTransport %s %s)' % (rg, tp)
+    if k == 'Storage' and not a.get('no_simult_in_out') and a.get('max_store_duration') is None and not a.get('block_size'):
+        sp = '(Build_storage_p %s %s %s %s %s %s %s %s %s %s %s %s %s false None)' % (
+            C.s(a['name']), C.lst([C.s(n) for n in a['nodes']]), C.q(float(a['size'])), C.q(float(a['cap_in'])),
+            C.q(float(a['cap_out'])), C.q(float(a.get('start_level', 0.0))), C.q(float(a.get('end_level', 0.0))),
+            C.q(float(a.get('cost_in', 0.0))), C.q(float(a.get('cost_out', 0.0))), C.q(float(a.get('cost_store', 0.0))),
+            C.q(float(a.get('eff_in', 1.0))), C.q(float(a.get('inflow', 0.0))), price_term(a.get('price'), spec))
+        return '(UStorage %s %s)' % (rg, sp)
+    return None
